@@ -21,6 +21,7 @@ use std::collections::{BTreeMap, BTreeSet};
 use std::fmt::Write as _;
 use std::sync::atomic::{AtomicUsize, Ordering};
 use std::sync::Arc;
+use std::panic::{catch_unwind, AssertUnwindSafe};
 
 #[derive(Default)]
 struct Counters { tile: AtomicUsize, task: AtomicUsize, poll: AtomicUsize }
@@ -97,14 +98,16 @@ pub fn run(seed: u64, count: usize, outdir: &str) -> std::io::Result<i32> {
         let mut line = String::new();
         let mut il = String::new();
         macro_rules! compare_pools { ($name:expr, $runner:expr, $tasksite:ident) => {{
+            let run = |t: Option<&ThreadPool>, k: CancelToken| { match catch_unwind(AssertUnwindSafe(|| $runner(t, k))) { Ok(v) => v.map(Ok), Err(_) => Some(Err(())) } };
             // reference: no pool, no hook
             uninstall();
-            let reference = $runner(None, CancelToken::new());
+            let reference = run(None, CancelToken::new());
+            if matches!(reference, Some(Err(()))) { bad.push(format!("kind=panic backend={backend} {} without a pool panicked", $name)); }
             if reference.is_none() { bad.push(format!("kind=no-result backend={backend} {} without a pool returned None though never cancelled", $name)); }
             // count tasks / polls without perturbation, sequentially
             let c0 = Arc::new(Counters::default());
             install(c0.clone(), 0, None, 0);
-            let again = $runner(None, CancelToken::new());
+            let again = run(None, CancelToken::new());
             if again != reference { bad.push(format!("kind=not-repeatable backend={backend} {} differs between two runs without a pool", $name)); }
             let polls_seq = c0.poll.load(Ordering::SeqCst);
             let tasks_seq = c0.$tasksite.load(Ordering::SeqCst);
@@ -116,14 +119,15 @@ pub fn run(seed: u64, count: usize, outdir: &str) -> std::io::Result<i32> {
                 for rep in 0..2 {
                     let c = Arc::new(Counters::default());
                     install(c.clone(), r.next() | 1, None, 0);
-                    let got = $runner(Some(&p), CancelToken::new());
-                    if got != reference { bad.push(format!("kind=pool-changes-result backend={backend} {} with {} threads (run {rep}) differs from the run without a pool", $name, n)); }
+                    let got = run(Some(&p), CancelToken::new());
+                    if matches!(got, Some(Err(()))) && !matches!(reference, Some(Err(()))) { bad.push(format!("kind=panic backend={backend} {} with {} threads panicked; without a pool it does not", $name, n)); }
+                    else if got != reference { bad.push(format!("kind=pool-changes-result backend={backend} {} with {} threads (run {rep}) differs from the run without a pool", $name, n)); }
                     if pi == 0 && rep == 0 { tasks_par.push((*n, c.$tasksite.load(Ordering::SeqCst), c.poll.load(Ordering::SeqCst))); }
                     *hist.entry(format!("{}-pool-runs", $name)).or_default() += 1;
                 }
             }
             uninstall();
-            let g = $runner(Some(&ThreadPool::Global), CancelToken::new());
+            let g = run(Some(&ThreadPool::Global), CancelToken::new());
             if g != reference { bad.push(format!("kind=pool-changes-result backend={backend} {} on the global pool differs", $name)); }
             // cancellation at exact poll numbers
             let (pn, pool_for_cancel) = (*r.pick(&[0usize, 2, 4]), ());
@@ -131,22 +135,22 @@ pub fn run(seed: u64, count: usize, outdir: &str) -> std::io::Result<i32> {
             let p = if pn == 0 { None } else { Some(pool(pn)) };
             // polls of this configuration when nothing is cancelled
             let c = Arc::new(Counters::default()); install(c.clone(), 0, None, 0);
-            let _ = $runner(p.as_ref(), CancelToken::new());
+            let _ = run(p.as_ref(), CancelToken::new());
             let total = c.poll.load(Ordering::SeqCst);
             let mut ks: Vec<usize> = vec![1, total, (total + 1) / 2, 1 + r.below(total.max(1))]; ks.sort(); ks.dedup();
             let mut cancel_out = String::new();
             for k in ks { if k == 0 || k > total { continue; }
                 let tok = CancelToken::new();
                 let c = Arc::new(Counters::default()); install(c.clone(), r.next() | 1, Some(tok.clone()), k);
-                let got = $runner(p.as_ref(), tok);
+                let got = run(p.as_ref(), tok);
                 if got.is_some() { bad.push(format!("kind=cancel-ignored backend={backend} {} cancelled at poll {k} of {total} ({} threads) still returned a result{}", $name, pn, if got == reference { "" } else { " (and it differs from the reference)" })); }
                 write!(cancel_out, " {k}:{}", if got.is_some() { "some" } else { "none" }).unwrap();
                 *hist.entry(format!("{}-cancel-runs", $name)).or_default() += 1;
             }
             // cancelled before the start
-            { uninstall(); let tok = CancelToken::new(); tok.cancel(); if $runner(p.as_ref(), tok).is_some() { bad.push(format!("kind=cancel-ignored backend={backend} {} cancelled before the start returned a result", $name)); } }
+            { uninstall(); let tok = CancelToken::new(); tok.cancel(); if run(p.as_ref(), tok).is_some() { bad.push(format!("kind=cancel-ignored backend={backend} {} cancelled before the start returned a result", $name)); } }
             // never cancelled with the hook's jitter on: the reference
-            { let c = Arc::new(Counters::default()); install(c.clone(), r.next() | 1, None, 0); let got = $runner(p.as_ref(), CancelToken::new()); if got != reference { bad.push(format!("kind=pool-changes-result backend={backend} {} never cancelled differs from the reference", $name)); } }
+            { let c = Arc::new(Counters::default()); install(c.clone(), r.next() | 1, None, 0); let got = run(p.as_ref(), CancelToken::new()); if got != reference { bad.push(format!("kind=pool-changes-result backend={backend} {} never cancelled differs from the reference", $name)); } }
             uninstall();
             (tasks_seq, polls_seq, tasks_par, total, cancel_out)
         }}; }
@@ -172,7 +176,7 @@ pub fn run(seed: u64, count: usize, outdir: &str) -> std::io::Result<i32> {
             }
             2 => {
                 let g = gen_csg(&mut r, true, true);
-                let depth = *r.pick(&[1u8, 2, 3, 4, 5]);
+                let depth = *r.pick(&[0u8, 1, 2, 3, 4, 5]);
                 let (_ts, _ps, tp, _total, _co) = if jit { compare_pools!("mesh", |t, k| rm::<JitFunction>(&g, depth, t, k), task) } else { compare_pools!("mesh", |t, k| rm::<VmFunction>(&g, depth, t, k), task) };
                 let (n, t, _) = tp[0];
                 line = format!("c09 octree {depth} {n}");
